@@ -8,7 +8,7 @@
    seg_wf file base ph      : a PT_LOAD header is well-formed (inside the file, filesz <= memsz, no u64 wrap)
    rebase_ok e B            : every address the object mentions, plus B, is still a u64 *)
 From Coq Require Import ZArith List String Lia.
-From Falcon Require Import Base.Res Mem.Backing Mem.BackingSpec Mem.BackingProofs Mem.BackingShift Mem.BackingFree Elf.ElfModel Elf.ElfProofs Elf.ElfLink Elf.ElfMips.
+From Falcon Require Import Base.Res Mem.Backing Mem.BackingSpec Mem.BackingProofs Mem.BackingShift Mem.BackingFree Elf.ElfModel Elf.ElfProofs Elf.ElfLink Elf.ElfMips Elf.ElfLinkN Elf.ElfMipsFull.
 Import ListNotations.
 Local Open Scope Z_scope.
 
@@ -176,6 +176,115 @@ Theorem reloc_once_mips : forall (be : bool) (B : Z) (dynsyms : list sym) (st : 
     read32 be (abs m') (pg + B + lg * 4 + 4 * (i - gs)) = Some (v mod U32).
 Proof. exact relocs_mips_once. Qed.
 Print Assumptions reloc_once_mips.
+
+(* [U] k DT_NEEDED libraries (linkn), hypotheses on the descriptions only (linkn_wf: main's and every library's
+   PT_LOAD headers well-formed and pairwise apart, library i at 0x40000000 + i * 0x02000000 clear of every object
+   before it, libraries without relocations of their own, symbol values exportable, main's slots pairwise disjoint
+   and inside one PT_LOAD of main): the link succeeds, every symbolic slot of main reads the registered address
+   of its symbol, and outside those slots the memory is exactly the union of the objects' images at their bases
+   (libs_img: rebase_uniform for every object of the link -- each image is the base-0 image shifted, image_shift) *)
+Theorem reloc_once_linkn : forall (main : elfd) (mrels : list rel) (libs : list (elfd * list rel)) (ex1 exs : list symbol),
+  linkn_wf main mrels libs ->
+  exported 0 (e_dynsyms main) = Ok ex1 -> libs_exports libs LIB_BASE0 = Ok exs ->
+  Forall symbolic (mrels ++ e_pltrelocs main) ->
+  Forall (fun r => exists v, resolves (e_dynsyms main) (st_add [] (ex1 ++ exs)) r v) (mrels ++ e_pltrelocs main) ->
+  exists m', linkn main mrels libs = Ok m' /\ wf 0 m' /\
+     (forall r v, In r (mrels ++ e_pltrelocs main) -> resolves (e_dynsyms main) (st_add [] (ex1 ++ exs)) r v ->
+                  read32 false (abs m') (r_offset r + 0) = Some (v mod 4294967296)) /\
+     (forall y, (forall r, In r (mrels ++ e_pltrelocs main) -> ~ (r_offset r + 0 <= y < r_offset r + 0 + 4)) ->
+                abs m' y = libs_img libs LIB_BASE0 (image_at (e_file main) 0 (e_phdrs main)) y).
+Proof. exact linkn_reloc_once. Qed.
+Print Assumptions reloc_once_linkn.
+
+(* [U] first definition wins: the registered address of a name is the first export carrying it, in the order
+   main, library 1, ..., library k ... *)
+Theorem link_symbol_first : forall (ex1 exs : list symbol) (n : string),
+  st_get (st_add [] (ex1 ++ exs)) n = first_def n (ex1 ++ exs).
+Proof. exact link_symbol_first. Qed.
+Print Assumptions link_symbol_first.
+
+(* [U] ... and every export of the k-th library (k = 0, 1, ...) is st_value + 0x40000000 + (k+1) * 0x02000000, once *)
+Theorem link_exports_once : forall (libs : list (elfd * list rel)) (base : Z) (exs : list symbol),
+  libs_exports libs base = Ok exs ->
+  forall a n, In (a, n) exs ->
+    exists l lr k s, nth_error libs k = Some (l, lr) /\ In s (e_dynsyms l) /\ n = s_name s /\
+                     a = s_value s + (base + LIB_STEP * (Z.of_nat k + 1)) /\ s_value s <> 0 /\ s_shndx s <> 0.
+Proof. exact libs_exports_once. Qed.
+Print Assumptions link_exports_once.
+
+(* [U] just_interpreter: hypotheses on the descriptions only; the loaded image is exactly main at 0 plus the PT_INTERP
+   object at 0x40000000 (DT_NEEDED is not loaded), and main's slots read the registered addresses *)
+Theorem interp_image : forall (main : elfd) (mrels : list rel) (interp : elfd) (irels : list rel) (ex1 ex2 : list symbol),
+  linkn_wf_at INTERP_B0 main mrels [(interp, irels)] ->
+  exported 0 (e_dynsyms main) = Ok ex1 -> exported LIB_BASE0 (e_dynsyms interp) = Ok ex2 ->
+  Forall symbolic (mrels ++ e_pltrelocs main) ->
+  Forall (fun r => exists v, resolves (e_dynsyms main) (st_add [] (ex1 ++ ex2)) r v) (mrels ++ e_pltrelocs main) ->
+  exists m', link_interp main mrels interp irels = Ok m' /\ wf 0 m' /\
+     (forall r v, In r (mrels ++ e_pltrelocs main) -> resolves (e_dynsyms main) (st_add [] (ex1 ++ ex2)) r v ->
+                  read32 false (abs m') (r_offset r + 0) = Some (v mod 4294967296)) /\
+     (forall y, (forall r, In r (mrels ++ e_pltrelocs main) -> ~ (r_offset r + 0 <= y < r_offset r + 0 + 4)) ->
+                abs m' y = match image_at (e_file interp) LIB_BASE0 (e_phdrs interp) y with
+                           | Some c => Some c
+                           | None => image_at (e_file main) 0 (e_phdrs main) y
+                           end).
+Proof. exact link_interp_image. Qed.
+Print Assumptions interp_image.
+
+(* [U] the k-library link with R_386_RELATIVE in main as well, description level: rel_val_at is rel_val with the
+   pre-relocation memory replaced by the image of the link (the addend of a RELATIVE relocation is the image word) *)
+Theorem reloc_once_linkn_relative : forall (b0 : Z) (main : elfd) (mrels : list rel) (libs : list (elfd * list rel)) (ex1 exs : list symbol),
+  linkn_wf_at b0 main mrels libs ->
+  exported 0 (e_dynsyms main) = Ok ex1 -> libs_exports libs b0 = Ok exs ->
+  let img := libs_img libs b0 (image_at (e_file main) 0 (e_phdrs main)) in
+  let st := st_add [] (ex1 ++ exs) in
+  Forall (fun r => exists w, rel_val_at 0 (e_dynsyms main) st img r w) (mrels ++ e_pltrelocs main) ->
+  exists m', linkn_at b0 main mrels libs = Ok m' /\ wf 0 m' /\
+     (forall r w, In r (mrels ++ e_pltrelocs main) -> rel_val_at 0 (e_dynsyms main) st img r w ->
+                  read32 false (abs m') (r_offset r + 0) = Some w) /\
+     (forall y, (forall r, In r (mrels ++ e_pltrelocs main) -> ~ (r_offset r + 0 <= y < r_offset r + 0 + 4)) -> abs m' y = img y).
+Proof. exact linkn_at_reloc_all. Qed.
+Print Assumptions reloc_once_linkn_relative.
+
+(* [U] relocations_mips, all of it (memory level, both endiannesses): whenever the pass succeeds on an invariant memory
+   and the R_MIPS_REL32 slots are pairwise disjoint and clear of the GOT [pg + B, pg + B + 4 * (lg + sn - gs)):
+   (a) local GOT entries and (b) defined global entries hold their word + the base (the word of a defined global entry
+   is its st_value in a linked object: st_value + base, once); (c) external entries hold the registered address of
+   their symbol; (d) every R_MIPS_REL32 word holds addend + the address of the symbol it names (mod 2^32) -- the base
+   for r_sym = 0, st_value + base for a local symbol, the RELOCATED GOT entry for a global one (the case repaired in
+   90896ec); (e) every other cell is unchanged *)
+Theorem reloc_once_mips_full : forall (be : bool) (B : Z) (dynsyms : list sym) (st : symtab) (dyns : list (Z * Z)) (rels : list rel)
+                                      (m m' : sections Z) (lg gs sn pg : Z),
+  wf 0 m -> 0 <= B -> 0 <= pg -> 0 <= lg -> 0 <= gs <= sn ->
+  dyn_get dyns 1879048202 = Some lg -> dyn_get dyns 1879048211 = Some gs ->
+  dyn_get dyns 1879048209 = Some sn -> dyn_get dyns 3 = Some pg ->
+  ForallOrdPairs (fun r1 r2 => is_rel32 r1 -> is_rel32 r2 -> apart r1 r2) rels ->
+  (forall r, In r rels -> is_rel32 r ->
+     r_offset r + B + 4 <= pg + B \/ pg + B + 4 * (lg + (sn - gs)) <= r_offset r + B) ->
+  Forall (fun r => is_rel32 r -> r_sym r < sn) rels ->
+  relocs_mips be B dynsyms st dyns rels m = Ok m' ->
+  let got j := pg + B + 4 * j in
+  wf 0 m' /\
+  (forall j, 0 <= j < lg -> exists v, read32 be (abs m) (got j) = Some v /\ read32 be (abs m') (got j) = Some ((v + B mod U32) mod U32)) /\
+  (forall i s, gs <= i < sn -> nth_sym dynsyms i = Some s -> s_shndx s <> 0 ->
+     exists v, read32 be (abs m) (got (lg + (i - gs))) = Some v /\ read32 be (abs m') (got (lg + (i - gs))) = Some ((v + B mod U32) mod U32)) /\
+  (forall i s v, gs <= i < sn -> nth_sym dynsyms i = Some s -> s_shndx s = 0 -> st_get st (s_name s) = Some v ->
+     read32 be (abs m') (got (lg + (i - gs))) = Some (v mod U32)) /\
+  (forall r, In r rels -> is_rel32 r ->
+     exists v add, read32 be (abs m) (r_offset r + B) = Some v /\ sym_add_spec be B dynsyms gs lg pg (abs m') r add /\
+                   read32 be (abs m') (r_offset r + B) = Some ((v + add) mod 4294967296)) /\
+  (forall y, ~ (pg + B <= y < pg + B + 4 * (lg + (sn - gs))) ->
+             (forall r, In r rels -> is_rel32 r -> ~ (r_offset r + B <= y < r_offset r + B + 4)) -> abs m' y = abs m y).
+Proof. exact relocs_mips_full. Qed.
+Print Assumptions reloc_once_mips_full.
+
+(* two libraries both defining f: the first (0x42000000) wins *)
+Definition ex_lib2 : elfd :=
+  mkelfd 3 false 0 [mkph 1 5 0 512 8 8] [1; 2; 3; 4; 5; 6; 7; 8] [mksym "" 0 0 0; mksym "f" 516 1 18] [] [] [].
+Example linkn_example :
+  option_map (fun m => read32 false (abs m) 4100)
+             (match linkn ex_main [] [(ex_lib, []); (ex_lib2, [])] with Ok m => Some m | _ => None end)
+  = Some (Some 1107296516).
+Proof. vm_compute. reflexivity. Qed.
 
 (* the hypotheses are satisfiable: a two-segment object with zero fill, loaded at 0x1000 *)
 Example image_example :
